@@ -471,7 +471,9 @@ static const char* _jbl_parse_value(
         char *pe;
         errno = 0;
         node->vi64 = strtoll(p, &pe, 0);
-        if ((pe == p) || (errno == ERANGE)) {
+        if ((errno == ERANGE) && (pe != p) && ((*pe == '.') || (*pe == 'e') || (*pe == 'E'))) {
+          errno = 0; // integer part beyond int64 of a number with fraction or exponent: read as double below
+        } else if ((pe == p) || (errno == ERANGE)) {
           if (*p != '.' && !((*p == '-' || *p == '+') && *(p + 1) == '.')) {
             ctx->rc = JBL_ERROR_PARSE_JSON;
             return 0;
